@@ -249,9 +249,30 @@ func c07ReadFaults(c *Ctx) {
 						k.Count("inputs_with_other_line_ends", 1)
 					}
 				}
+				// One input in eight is SLOPPY at its end, the way hand-edited and concatenated files are: blank lines, a
+				// line of blanks, a stray CR, a second final newline, the last record cut short. Whether the format
+				// takes it or reports a parse error is not the question here — with a failing reader behind it, the
+				// iteration must still not end as though the data were complete.
+				sloppy := i%8 == 5
+				if sloppy {
+					x = append(append([]byte{}, x...), pick(r, []string{"\n", "\n\n\n", "\r\n\r\n", " \n", "\t", "\r", "\n \n\n", "\n\n\n\n\n\n\n\n\n\n"})...)
+					if r.IntN(4) == 0 {
+						x = x[:len(x)-min(len(x)-1, 3+r.IntN(12))]
+					}
+					k.Count("inputs_sloppy_at_the_end", 1)
+				}
 				k.Input("format", f)
 				k.Input("input", func() string { return describeText(x) })
 				ref, _ := collect(cd.seq(bytes.NewReader(x)), len(x)+8)
+				if sloppy { // keep the records, drop the format's own complaints
+					var recs []item
+					for _, it := range ref {
+						if !it.Err {
+							recs = append(recs, it)
+						}
+					}
+					ref = recs
+				}
 				for _, it := range ref {
 					if it.Err {
 						k.Failf("wellformed-rejected", "%s: fault-free decode of a well-formed input has an error item: %s", f, traceString(ref))
